@@ -921,6 +921,8 @@ def b_enumerate(I, it, start=0):
     if isinstance(it, ArrRef):
         n = conc(I.A(it).shape[0])
         if not is_sym(n): return [(start + k, arr_getitem(I, it, k)) for k in range(n)]
+        from .engine import EnumV
+        return EnumV(it, start)
     raise Unsupported("enumerate over symbolic iterable")
 def b_zip(I, *its):
     out = []
